@@ -261,7 +261,19 @@ func ruleDoUniqueIndex(c *Ctx, r *R) {
 					}
 				}
 			}
-			ap := addrProv(ac.Call.Args[0], provEnv{chain: chain})
+			addr := ac.Call.Args[0]
+			// the worker literal is built by a constructor that is handed the counter's address (newContextWorker(ctx, &x, n, f)):
+			// the parameter stands for the argument of the constructor's only call
+			if prm, isP := resolveVal(addr).(*ssa.Parameter); isP && prm.Parent() != nil && prm.Parent().Parent() == nil && !token.IsExported(prm.Parent().Name()) {
+				if sites := callCommonsOf(c, prm.Parent()); len(sites) == 1 {
+					for k, q := range prm.Parent().Params {
+						if q == prm && k < len(sites[0].Args) {
+							addr, chain = sites[0].Args[k], nil
+						}
+					}
+				}
+			}
+			ap := addrProv(addr, provEnv{chain: chain})
 			if al, ok := ap.root.(*ssa.Alloc); ok && (rootFn(al.Parent()) == rootFn(fn) || rootFn(al.Parent()) == rootFn(im.api)) {
 				counter = &ap
 				return true
